@@ -423,6 +423,24 @@ def rule_inc_fail_on_destructed(ctx):
                     if not ok:
                         r.violate(b.name, "null", "path without increment is not the null short-circuit returning Some",
                                   b.loc(0))
+    # an upgrade that reaches no strong-adding check on any path can never succeed for a live object (or hands out owners
+    # without shares): not a lost anchor, a violation of "a call made while some strong owner exists always succeeds"
+    for name, b in sorted(ctx.prog.bodies.items()):
+        if b.kind == "closure" or not b.file().endswith("weak.rs") or not name.endswith("::upgrade") or \
+                not b.locals[0]["ty"].startswith("std::option::Option<"):
+            continue
+        reach_inc = False
+        for p in ctx.paths(name):
+            if any(e.kind == "call" and (e.target in fns or (e.target or "").startswith("utils::RcInner::<T>::") and
+                                        ctx.prog.bodies.get(e.target) is not None and
+                                        ctx.prog.bodies[e.target].locals[0]["ty"] == "bool") for e in p.events):
+                reach_inc = True
+        r.instance("%s reaches a check that can grant a share" % name, reach_inc)
+        if not reach_inc:
+            ncallers += 1       # (the function is there: the floor below is not what failed)
+            r.violate(name, "never-succeeds", "no path of this upgrade reaches the count-word check that grants a share: it "
+                      "fails for every non-null pointer although a strong owner exists (or it creates owners without shares)",
+                      b.loc(0))
     r.require(ncallers, 2, "Option-returning callers of strong-adding functions")
     return r
 
